@@ -102,6 +102,41 @@ def finish_noise(windows, shape, snr):
     return {"shape": shape, "peak": peak, "snr_db": snr, "min_pulse": minp}
 
 
+def window_min_pulse(w):
+    minp = None
+    for f in w["frames"]:
+        nb = len(f["hex"]) * 4
+        m = float(rf.pulse_amps(f["amp"], f["ripple"], f["rseed"], 4 + nb).min())
+        minp = m if minp is None else min(minp, m)
+    return minp
+
+
+def decreasing_levels(rng, windows, shape, noise):
+    """Non-stationary but benign regime: the noise level never rises from one
+    processing window to the next (the receiver gain settles, a jammer goes
+    away).  Window w gets its own peak: at least 10 dB below the weakest pulse
+    *of that window*, and not above the previous window's peak.  Frames are
+    re-scaled so that earlier windows are loud/strong and later ones quiet/weak."""
+    if shape == "zero" or len(windows) < 2:
+        return
+    n = len(windows)
+    # amplitudes: strong first, weak later
+    for wi, w in enumerate(windows):
+        hi = 1.4 - (1.4 - 0.3) * wi / max(1, n - 1)
+        for f in w["frames"]:
+            f["amp"] = round(max(0.3, min(1.4, hi * rng.choice([1.0, 1.0, 0.9, 0.8]))), 4)
+    prev = None
+    for w in windows:
+        mp = window_min_pulse(w)
+        snr = rng.choice(SNRS)
+        want = (mp if mp is not None else 0.3) / (10 ** (snr / 20.0))
+        pk = want if prev is None else min(prev, want)
+        w["pk"] = pk
+        prev = pk
+    noise["peak"] = windows[0]["pk"]
+    noise["regime"] = "decreasing"
+
+
 def generate(run_seed, tier):
     rw = substream(run_seed, "world")
     rn = substream(run_seed, "noise")
@@ -124,6 +159,8 @@ def generate(run_seed, tier):
         left -= len(frames)
         windows.append({"n": n, "nseed": rn.getrandbits(31), "frames": frames})
     noise = finish_noise(windows, shape, snr)
+    if rn.random() < 0.3:
+        decreasing_levels(rn, windows, shape, noise)
     return {"rig": NAME, "prop": PROP, "noise": noise, "windows": windows}
 
 
@@ -133,7 +170,15 @@ def check_premise(sc):
     otherwise wander out of the statement's preconditions)."""
     no = sc["noise"]
     minp = None
+    prev_pk = None
     for wi, w in enumerate(sc["windows"]):
+        pk = w.get("pk", no["peak"])
+        if prev_pk is not None and pk > prev_pk * (1 + 1e-12):
+            return False  # noise level must not rise within a run
+        prev_pk = pk
+        wmin = window_min_pulse(w)
+        if wmin is not None and no["shape"] != "zero" and pk > wmin / (10 ** 0.5) * (1 + 1e-12):
+            return False
         end_prev = None
         for f in w["frames"]:
             nb = len(f["hex"]) * 4
@@ -151,7 +196,7 @@ def check_premise(sc):
             minp = m if minp is None else min(minp, m)
         if w["n"] < 400:
             return False
-    if minp is not None and no["shape"] != "zero" and no["peak"] > minp / (10 ** 0.5) * (1 + 1e-12):
+    if minp is not None and no["shape"] != "zero" and "pk" not in sc["windows"][0] and no["peak"] > minp / (10 ** 0.5) * (1 + 1e-12):
         return False
     return True
 
@@ -206,9 +251,11 @@ def execute(sc, keep_log=False):
                 stats.c["probe.short_then_long"] += 1
         if no["shape"] != "zero" and no["snr_db"] < 14 and w["frames"]:
             stats.c["probe.snr_below_14dB_window"] += 1
+        if "pk" in w and wi > 0 and w["pk"] < sc["windows"][wi - 1].get("pk", 0) * 0.5 and w["frames"]:
+            stats.c["probe.noise_level_dropped_by_half_or_more"] += 1
         stats.c["noise." + no["shape"]] += 1
         nontrivial = bool(w["frames"]) and (no["shape"] != "zero" or any(f["flips"] for f in w["frames"]) or wi > 0)
-        stats.sig((wi > 0, no["shape"], tuple(sig)), nontrivial)
+        stats.sig((wi > 0, no["shape"], no.get("regime", "stationary"), tuple(sig)), nontrivial)
         bad17 = [g for g in got if len(g) == 28 and R.hex_df(g) == 17 and R.crc_of_hex(g) != 0]
         if bad17:
             violations.append({"clause": "C19.b", "window": wi,
